@@ -304,6 +304,10 @@ class World:
                 if vals == "all":
                     vals = list(rv.N)
                     ci = "all"
+                elif isinstance(ci, (range, slice)) and len(vals) != len(range(*ci.indices(10**9)) if isinstance(ci, slice) else ci):
+                    # select() takes row labels: a range / slice that spans labels which are not in the view is not a
+                    # well-formed request; the present labels are passed explicitly instead
+                    ci = [int(v) for v in vals]
                 calls.append(("select_nodes", ci))
                 rv = rv.select(nodes=vals)
             elif kind == "select_edges":
@@ -313,6 +317,8 @@ class World:
                 if vals == "all":
                     vals = list(rv.E)
                     ci = "all"
+                elif isinstance(ci, (range, slice)) and len(vals) != len(range(*ci.indices(10**9)) if isinstance(ci, slice) else ci):
+                    ci = [int(v) for v in vals]
                 calls.append(("select_edges", ci))
                 rv = rv.select(edges=vals)
             elif kind == "group":
